@@ -332,6 +332,11 @@ func Variant(r *rand.Rand, s *Schema, doc *Doc, vals map[string]*Val, kind strin
 				for _, other := range fields {
 					sameField := other == f
 					if !sameField && other.Key()+"|"+other.Name+"|"+argsSig(other.Args) == sigF {
+						// a same-looking field of ANOTHER parent type whose argument has a different type cannot
+						// share the variable, and cannot keep the literal next to it either: leave this literal alone
+						if other.Def == nil || other.Def.Arg(a.Name) == nil || other.Def.Arg(a.Name).Type.String() != ad.Type.String() {
+							clash = true
+						}
 						continue
 					}
 					for _, oa := range other.Args {
